@@ -143,4 +143,36 @@ theorem imposeOn_noweight_zero (inf : K) (tr : List (Nat × List (Nat × List Na
       (by rw [hk.mass]; exact hpos) (by rw [length_mweights, hk.len]; exact hout)
     exact h6 p hp (by rw [length_mweights, hk.len]; exact hpn)
 
+/-! ### several rounds: the oldest round runs last -/
+
+theorem applyRounds_snoc (inf : K) (npts : List Nat) (rs : List MRound) (r : MRound) (x : List K) :
+    applyRounds inf npts (rs ++ [r]) x = (applyRounds inf npts rs x).bind (applyMeasure inf npts r) := by
+  induction rs generalizing x with
+  | nil => simp [applyRounds]
+  | cons r0 rs ih =>
+    simp only [List.cons_append, applyRounds]
+    cases applyMeasure inf npts r0 x with
+    | none => rfl
+    | some y => simpa using ih y
+
+/-- every round returns exactly `2*sum(npts)` numbers (surplus parameters are dropped by the first one) -/
+theorem applyMeasure_length (inf : K) (npts : List Nat) (r : MRound) (x y : List K) (hlen : 2 * npts.sum ≤ x.length)
+    (h : applyMeasure inf npts r x = some y) : y.length = 2 * npts.sum := by
+  obtain ⟨c, _, h2, _, h4⟩ := imposeMeasure_eq inf npts (trackGroups r.tracking) r.noweight x hlen
+  unfold applyMeasure at h
+  rw [h4] at h
+  rw [← Option.some.inj h, length_flatten, imposeOn_pts, h2]
+
+theorem applyRounds_length (inf : K) (npts : List Nat) (rs : List MRound) (x y : List K)
+    (hlen : 2 * npts.sum ≤ x.length) (h : applyRounds inf npts rs x = some y) : 2 * npts.sum ≤ y.length := by
+  induction rs generalizing x with
+  | nil => simp only [applyRounds, Option.some.injEq] at h; rw [← h]; exact hlen
+  | cons r rs ih =>
+    simp only [applyRounds] at h
+    cases hx : applyMeasure inf npts r x with
+    | none => rw [hx] at h; simp at h
+    | some x' =>
+      rw [hx] at h
+      exact ih x' (by rw [applyMeasure_length inf npts r x x' hlen hx]) (by simpa using h)
+
 end MysticVerif.Clps
